@@ -10,7 +10,7 @@ assembly machine runs from s to s' without stopping.  `Placed C pc c`: the code 
 index pc.  `VarsRel cx sc env locals args`: the compile-time scopes `sc` (vars.go) and the machine's slots
 describe the run-time environment `env`.
 -/
-import NeoModel.Proofs.CompileExpr
+import NeoModel.Proofs.CompileStmt
 namespace NeoModel.C14
 open NeoModel.MiniVm NeoModel.MiniVm.Asm NeoModel.MiniGo NeoModel.Compile NeoModel.CompileProofs
 
@@ -64,5 +64,77 @@ example : Reach (compE exCx [[]] exE .val 0).1 exS
     ⟨by simp [exEnv, FramesRel, FrameRel], rfl, rfl⟩
   simpa [exS] using this
 end example_
+
+/-
+Full statement of compile_correct (DESIGN §C14), kept for reference:
+
+    theorem compile_correct (p : Prog) (f : String) (a : List Val) (v : Val) :
+        runFunc fuel p f a = .ok (some v) → ByteVm.run (compile p) (offset f) a = HALT [v]
+      ∧ (runFunc fuel p f a = .panic → ByteVm.run (compile p) (offset f) a = FAULT)
+
+What is proved below is `_partial` in four ways: (1) statements without calls, loops, break/continue and
+without `var x T = e` (see `varDecl_shadow_witness`); (2) against the assembly machine, not the byte machine
+(`assemble` is tied byte-for-byte, not proved); (3) under the hypothesis that label marks are unique;
+(4) only the success direction (value → HALT with that value), not panic → FAULT.
+-/
+
+/-- compile_correct, statement level (forward simulation, `_partial`): a call-free, loop-free statement that the
+    Go semantics executes normally runs from its first to its last instruction, leaves the evaluation stack and
+    the invocation stack as they were (stack-depth discipline) and re-establishes the scope/slot relation for the
+    new environment; one that returns reaches a RET with exactly the returned value pushed. -/
+theorem compile_stmt_correct_partial (P : Prog) (cx : Ctx) (fuel : Nat)
+    (s : Stmt) (lp : LoopCtx) (st : St) (env : Env) (C : Code) (σ : State) (out : SOut)
+    (hs : Simple s) (hex : exec fuel P env s = .ok out)
+    (hp : Placed C σ.pc (compS cx lp s st).1) (hn : (labelsOf C).Nodup)
+    (hrel : VarsRel cx st.scopes env σ.locals σ.args) (hwf : Wf st)
+    (hcnt : (compS cx lp s st).2.cnt ≤ σ.locals.length) :
+    StmtPost cx C σ (compS cx lp s st).1.length (compS cx lp s st).2 out :=
+  stmtOK P cx fuel s lp st env C σ out hs hex hp hn hrel hwf hcnt
+
+/-- compile_correct, function level (`_partial`): a function with a call-free, loop-free body, entered at its
+    label with the arguments on the stack (first argument on top), halts with the value the Go semantics returns
+    on top of whatever was below the arguments. -/
+theorem compile_func_correct_partial (P : Prog) (tbl : List (String × Nat × Nat)) (d : FuncDecl) (label nl : Nat)
+    (C : Code) (pc0 : Nat) (vs rest : List Val) (v : Val) (fuel : Nat)
+    (hsimple : Simple d.body) (hlen : d.params.length = vs.length)
+    (hex : exec fuel P { frames := [[]], args := d.params.zip vs } (.block d.body) = .ok (.ret (some v)))
+    (hp : Placed C pc0 (compFunc tbl d label nl).1) (hn : (labelsOf C).Nodup) :
+    ∃ n, Asm.run C n { pc := pc0, stack := vs ++ rest, locals := [], args := [], frames := [] } = .halt (v :: rest) :=
+  func_correct P tbl d label nl C pc0 vs rest v fuel hsimple hlen hex hp hn
+
+/-! non-vacuity: `func f(a0 int, a1 bool) int { x := a0 * 2; if a1 && x > 3 { x += 10 } else { return x - 1 }; return x }` -/
+section example_func
+def exD : FuncDecl :=
+  { name := "f", params := ["a0", "a1"], hasResult := true,
+    body := .seq (.define "x" (.bin .mul (.var "a0") (.lit 2)))
+      (.seq (.ite (.bin .land (.var "a1") (.bin .gt (.var "x") (.lit 3)))
+              (.seq (.opAssign "x" .add (.lit 10)) .skip) .block
+              (.seq (.ret (some (.bin .sub (.var "x") (.lit 1)))) .skip))
+      (.seq (.ret (some (.var "x"))) .skip)) }
+
+example : Simple exD.body := by simp [exD, Simple, NoCall, Strict]
+example : exec 20 [exD] { frames := [[]], args := exD.params.zip [.int 5, .bool true] } (.block exD.body)
+    = .ok (.ret (some (.int 20))) := by rfl
+example : ∃ n, Asm.run (compFunc [] exD 0 1).1 n { pc := 0, stack := [.int 5, .bool true], locals := [], args := [], frames := [] }
+    = .halt [.int 20] := by
+  have := compile_func_correct_partial [exD] [] exD 0 1 (compFunc [] exD 0 1).1 0 [.int 5, .bool true] [] (.int 20) 20
+    (by simp [exD, Simple, NoCall, Strict]) rfl (by rfl) ⟨[], [], by simp, rfl⟩ (by decide)
+  simpa using this
+end example_func
+
+/-- The excluded case is a real difference between the compiler (as modelled, codegen.go:738-764) and Go:
+    `func f(x int) int { r := 0; { var x int = x + 1; r = x }; return r + x }` returns 2x+1 in Go, while the
+    compiled code reads the freshly allocated, still Null slot of the new x and FAULTs. -/
+def shadowD : FuncDecl :=
+  { name := "f", params := ["x"], hasResult := true,
+    body := .seq (.define "r" (.lit 0))
+      (.seq (.block (.seq (.varDecl "x" false (some (.bin .add (.var "x") (.lit 1))))
+                    (.seq (.assign "r" (.var "x")) .skip)))
+      (.seq (.ret (some (.bin .add (.var "r") (.var "x")))) .skip)) }
+
+theorem varDecl_shadow_witness :
+    runFunc 20 [shadowD] "f" [.int 3] = .ok (some (.int 7)) ∧
+    (∃ n, Asm.run (compProg [shadowD]) n { pc := 0, stack := [.int 3], locals := [], args := [], frames := [] } = .fault) := by
+  refine ⟨by rfl, 12, by rfl⟩
 
 end NeoModel.C14
